@@ -198,6 +198,35 @@ def direct_oracle(g, seed, rs=None):
             return dict(what="base layer: a pixel's log-density is not the sum of its OBSERVED channels' Gaussian log-densities",
                         x=np.where(np.isnan(xm), None, xm).tolist(), at=[int(t) for t in i] if i else None,
                         impl=float(z[i]) if i else list(z.shape), expected=float(ref[i]) if i else list(ref.shape))
+        # (1e) learned scales (optimize_scale=True, scales moved away from the constructor's values): the base layer is still the
+        #      sum of the observed channels' Gaussian log-densities, and the density of ONE observed pixel channel with everything
+        #      else missing integrates to one for every class (trapezoid rule, step 0.01 on [-14, 14])
+        from deeprob.spn.models.dgcspn import DgcSpn as _Dgc
+        torch.manual_seed(seed + 21)
+        ms = _Dgc((C_, D, D), out_classes=g["classes"], n_batch=g["batch"], sum_channels=g["sumc"], depthwise=list(g["dw"]),
+                  n_pooling=g["n"], optimize_scale=True)
+        with torch.no_grad():
+            ms.base_layer.scale.copy_(torch.tensor(rs.uniform(0.5, 1.8, size=tuple(ms.base_layer.scale.shape)).astype(np.float32)))
+        ms.eval()
+        with torch.no_grad():
+            zs = ms.base_layer(torch.tensor(xm)).double().numpy()
+        loc_s = ms.base_layer.loc.detach().double().numpy(); sc_s = ms.base_layer.scale.detach().double().numpy()
+        lps = -0.5 * ((xe - loc_s[None]) / sc_s[None]) ** 2 - np.log(sc_s[None]) - 0.5 * np.log(2 * np.pi)
+        refs = np.where(np.isnan(lps), 0.0, lps).sum(axis=2)
+        if zs.shape != refs.shape or not np.all(np.abs(zs - refs) <= 1e-4 + 1e-5 * np.abs(refs)):
+            i = np.unravel_index(int(np.nanargmax(np.abs(np.nan_to_num(zs, nan=1e30) - refs))), refs.shape) if zs.shape == refs.shape else None
+            return dict(what="base layer with learned scales: a pixel's log-density is not the sum of its observed channels' Gaussian log-densities",
+                        at=[int(t) for t in i] if i else None, impl=float(zs[i]) if i else list(zs.shape),
+                        expected=float(refs[i]) if i else list(refs.shape), scale_range=[float(sc_s.min()), float(sc_s.max())])
+        grid1 = np.arange(-14.0, 14.0001, 0.01)
+        ci, hi, wi = int(rs.randint(C_)), int(rs.randint(D)), int(rs.randint(D))
+        xg = torch.full((len(grid1), C_, D, D), float("nan")); xg[:, ci, hi, wi] = torch.tensor(grid1, dtype=torch.float32)
+        with torch.no_grad():
+            dens = torch.exp(ms(xg).double()).numpy()
+        mass1 = (dens[1:] + dens[:-1]).sum(0) * 0.005
+        if not np.all(np.abs(mass1 - 1.0) <= 5e-3):
+            return dict(what="learned scales: the marginal density of one pixel channel (all else missing) does not integrate to one",
+                        pixel=[ci, hi, wi], mass_per_class=mass1.tolist(), scale_range=[float(sc_s.min()), float(sc_s.max())])
         # (1c) a model with the dropout options, in evaluation mode, queried through a HISTORY: forward, mpe, forward again.
         #      Evaluation mode is the caller's; no query may leave it, so the all-missing input still scores 0 and a complete
         #      image gets the same log-density every time.
